@@ -148,7 +148,13 @@ func TestVerif_C21(t *testing.T) {
 						deps = append(deps, dep)
 						hs = append(hs, dep.PayloadHash())
 					}
-					y, err := f.nextSnapshot(other, hs, ts+uint64(1+rng.Intn(1000)))
+					// (deposits are checked against the custodian of their own instant: next to a custodian update they
+					// are stamped just before it, so that they stay valid on both sides of the update)
+					yts := ts + uint64(1+rng.Intn(1000))
+					if kind == "custodian-update" {
+						yts = ts - uint64(1+rng.Intn(1000))
+					}
+					y, err := f.nextSnapshot(other, hs, yts)
 					if err != nil {
 						continue
 					}
@@ -285,8 +291,10 @@ func vC21Enumerate(t *testing.T, r *verifkit.Run, net *verifgen.Net, scratch, la
 						}
 						if dy.Finalized {
 							r.Count("injected_snapshots_finalized", 1)
+							r.Count("injected_snapshots_finalized_next_to_"+op.kind, 1)
 						} else {
 							r.Count("injected_snapshots_not_finalized", 1)
+							r.Count("injected_snapshots_not_finalized_next_to_"+op.kind, 1)
 						}
 					}
 				}
